@@ -9,7 +9,7 @@ PROP = "C20"
 THEOREMS = ["C20_model_smoke", "C20_heartbeat_is_clamped", "C20_heartbeat_zero_is_max", "C20_heartbeat_in_range_kept", "C20_connect_deadline_exact",
             "C20_auth_deadline_exact", "C20_handshake_in_time_no_timeout", "C20_idle_is_pinged_within_two_intervals", "C20_ping_timeout_exact",
             "C20_ping_then_wait_three_intervals", "C20_active_is_never_pinged", "C20_stale_pong_gets_closed", "C20_closed_is_final",
-            "C20_fuel_is_adequate", "C20_output_times_bounded", "C20_refused_attempt_keeps_auth_deadline", "C20_refused_attempt_example"]
+            "C20_fuel_is_adequate", "C20_output_times_bounded", "C20_refused_attempt_keeps_auth_deadline", "C20_refused_attempt_example", "C20_link_negotiation_is_the_same_clamp"]
 PRELUDE = "From NW Require Import Base.Bytes Model.Timers Conf.CodecConf Conf.TimerConf.\n"
 
 
@@ -344,6 +344,19 @@ def run(tier, replay=None):
                     reasons = [bytes.fromhex(sl.frame_get(f, "reason")) for f in fr["frames"] if "undecodable" not in f and sl.frame_name(f) == "ERROR"]
                     if reasons != [b"SERVER_SHUTTING_DOWN"] or not fr["closed"]:
                         violations.append((f"on shutdown connection {k} (state {st}) got {reasons}, closed={fr['closed']} instead of SERVER_SHUTTING_DOWN + close", c))
+    if not replay:
+        # the same keep-alive contract on the modulator links (S2M / M2S dispatchers share the engine, their handshakes
+        # negotiate the interval on their own)
+        import linklib as ll
+        kc = ll.keepalive_cases(r, 60 if thorough else 12)
+        kobs, kout = ll.run_link(kc, tag="c20ka")
+        if kobs is None:
+            violations.append(("link harness crashed or hung: " + kout[-300:], kc[0]))
+        else:
+            stats["link_keepalive_cases"] = len(kc)
+            for c, ob in zip(kc, kobs):
+                for what, t in ll.keepalive_monitor(c, ob):
+                    violations.append((f"{c['kind'].upper()} link: " + what, c))
     if (broken or disagreements) and not violations and not replay:
         log("proof/correspondence broken; extended search")
         search(400, "x", Rng(seed() + 7919))
